@@ -122,26 +122,69 @@ def entry_open_url(P, app, sid, ce):
         warnings.simplefilter("ignore")
         ds = P["open_url"]("http://localhost/d?" + quote(ce, safe="=&,.[]:<>!\"'()~_-"), application=app)
         seq = ds[sid]
+        P["_url"] = seq.data.url
         return list(seq.keys()), [tuple(r) for r in seq.iterdata()]
 
 
-def entry_operators(P, app, sid, cols, rng_, clauses):
+def apply_ops(base, seq, ops):
+    """apply client operators; comparisons are written with the columns of the opened sequence `base`"""
+    import functools
+    for op in ops:
+        if op[0] == "filt":
+            ces = []
+            for (c1, opsym, (kind, x)) in op[1]:
+                rhs = base[x] if kind == "name" else x
+                ces.append(OPS[opsym][1](base[c1], rhs))
+            seq = seq[functools.reduce(lambda a, b: a & b, ces)]
+        elif op[0] == "cols":
+            seq = seq[tuple(op[1])]
+        else:
+            seq = seq[slice(op[1], op[2], op[3])]
+    return seq
+
+
+def plan_ops(cols, rng_, rcs, variant):
+    """the operators for (cols, range, clauses); `variant` picks the order of the steps and whether the clauses are one
+    conjunction `c1 & c2` or one filter each (the server filters, projects, slices whatever the order)"""
+    filt = []
+    if rcs:
+        filt = [("filt", list(rcs))] if variant % 2 else [("filt", [rc]) for rc in rcs]
+    colop = [("cols", list(cols))] if cols is not None else []
+    slop = [("sl", rng_[0], rng_[2] + 1, rng_[1])] if rng_ is not None else []
+    order = (variant // 2) % 3
+    if order == 0:
+        return filt + colop + slop
+    if order == 1:
+        return slop + colop + filt
+    return colop + filt[:1] + slop + filt[1:]
+
+
+def ops_sexp(ops):
+    out = []
+    for op in ops:
+        if op[0] == "filt":
+            out.append("(filt %s)" % " ".join(
+                "(cmp %s %s %s)" % (c1, OPS[o][0], "(col %s)" % x if kind == "name" else "(val %s)" % seqtab.val_sexp(x))
+                for (c1, o, (kind, x)) in op[1]))
+        elif op[0] == "cols":
+            out.append("(cols (%s))" % " ".join(op[1]))
+        else:
+            out.append("(sl %d %d %d)" % op[1:])
+    return "(" + " ".join(out) + ")"
+
+
+def entry_operators(P, app, sid, cols, rng_, clauses, variant=0):
     with warnings.catch_warnings():
         warnings.simplefilter("ignore")
         ds = P["open_url"]("http://localhost/d", application=app)
-        seq = ds[sid]
-        for (_, o, _, rc) in clauses:
-            c1, opsym, (kind, x) = rc
-            rhs = seq[x] if kind == "name" else x
-            seq = seq[OPS[opsym][1](seq[c1], rhs)]
-        if cols is not None:
-            seq = seq[tuple(cols)]
-        if rng_ is not None:
-            seq = seq[slice(rng_[0], rng_[2] + 1, rng_[1])]
+        base = ds[sid]
+        ops = plan_ops(cols, rng_, [rc for (_, _, _, rc) in clauses], variant)
+        seq = apply_ops(base, base, ops)
+        P["_url"], P["_ops"] = seq.data.url, ops
         return list(seq.keys()), [tuple(r) for r in seq.iterdata()]
 
 
-def entry_mixed(P, app, sid, cols, rng_, clauses):
+def entry_mixed(P, app, sid, cols, rng_, clauses, variant=0):
     """part of the conjunction in the URL (`open_url(url?sid&clause…)`), the rest built with the operators on the opened
     sequence; returns the derived rows and what the opened sequence itself reads before and after the derivation"""
     n_url = (len(clauses) + 1) // 2
@@ -152,15 +195,9 @@ def entry_mixed(P, app, sid, cols, rng_, clauses):
         ds = P["open_url"]("http://localhost/d?" + quote(ce, safe="=&,.[]:<>!\"'()~_-"), application=app)
         base = ds[sid]
         before = [tuple(r) for r in base.iterdata()]
-        seq = base
-        for (_, o, _, rc) in op_cl:
-            c1, opsym, (kind, x) = rc
-            rhs = seq[x] if kind == "name" else x
-            seq = seq[OPS[opsym][1](seq[c1], rhs)]
-        if cols is not None:
-            seq = seq[tuple(cols)]
-        if rng_ is not None:
-            seq = seq[slice(rng_[0], rng_[2] + 1, rng_[1])]
+        ops = plan_ops(cols, rng_, [rc for (_, _, _, rc) in op_cl], variant)
+        seq = apply_ops(base, base, ops)
+        P["_url"], P["_ops"] = seq.data.url, ops
         got = [tuple(r) for r in seq.iterdata()]
         after = [tuple(r) for r in ds[sid].iterdata()]
         return list(seq.keys()), got, before, after, url_cl
@@ -178,7 +215,7 @@ def finding_class(entry, backend, cols, rng_, clauses, kinds_by_name=None, expec
     return None
 
 
-def check_case(ctx, P, backend, names, kinds, rows, cols, rng_, clauses, cases, tmpdir, where, entries):
+def check_case(ctx, P, backend, names, kinds, rows, cols, rng_, clauses, cases, tmpdir, where, entries, urlcases=None):
     app, sid = make_app(P, backend, names, kinds, rows, tmpdir)
     cl = [(a.replace(SID + ".", sid + ".", 1), o, b.replace(SID + ".", sid + ".", 1) if b.startswith(SID + ".") else b, rc)
           for (a, o, b, rc) in clauses]
@@ -194,14 +231,16 @@ def check_case(ctx, P, backend, names, kinds, rows, cols, rng_, clauses, cases, 
             "range": list(rng_) if rng_ else None, "clauses": [[a, o, b, [rc[0], rc[1], list(rc[2])]] for (a, o, b, rc) in cl],
             "ce": ce}
     size = len(rows) * 10 + len(names) + 20 * len(cl) + (5 if rng_ else 0) + (3 * len(cols) if cols else 0)
+    variant = (len(rows) + 2 * len(names) + 3 * len(cl) + (rng_[0] if rng_ else 0)) % 6
     for entry in entries:
+        P["_url"] = P["_ops"] = None
         try:
             if entry == "raw":
                 got_cols, got = entry_raw(P, app, sid, ce, dict(zip(names, kinds)))
             elif entry == "open_url":
                 got_cols, got = entry_open_url(P, app, sid, ce)
             elif entry == "mixed":
-                got_cols, got, before, after, url_cl = entry_mixed(P, app, sid, cols, rng_, cl)
+                got_cols, got, before, after, url_cl = entry_mixed(P, app, sid, cols, rng_, cl, variant)
                 base_exp = canon_rows([tuple(r) for r in seqtab.ref_filter(names, rows, [rc for (_, _, _, rc) in url_cl])])
                 for label, rows_ in (("before", before), ("after", after)):
                     try:
@@ -214,7 +253,7 @@ def check_case(ctx, P, backend, names, kinds, rows, cols, rng_, clauses, cases, 
                                         cls=finding_class("operators", backend, None, None, url_cl,
                                                           dict(zip(names, kinds)), base_exp == canon_rows([]), not rows), size=size)
             else:
-                got_cols, got = entry_operators(P, app, sid, cols, rng_, cl)
+                got_cols, got = entry_operators(P, app, sid, cols, rng_, cl, variant)
             try:
                 text = canon_rows(got)
             except Exception:
@@ -231,6 +270,23 @@ def check_case(ctx, P, backend, names, kinds, rows, cols, rng_, clauses, cases, 
                 "none" if rng_ is None else "(sl %d %d %d)" % (rng_[0], rng_[2] + 1, rng_[1]),
                 " ".join("(cond %s %s %s)" % (hexs(a), OPS[o][0], hexs(b)) for (a, o, b, _) in cl))
             cases.append((line, text, case))
+            # the same request as the query text itself: `parse_ce` + handler + serve in the model
+            cases.append(("sc-serve %s %s %s %s" % (backend, sid, seqtab.table_sexp(names, rows), hexs(ce)), text, case))
+        elif P.get("_url") and urlcases is not None:
+            # client model: the query text of the GET the (derived) proxy issues
+            q = P["_url"].split("?", 1)[1] if "?" in P["_url"] else ""
+            tok = lambda xs: " ".join(hexs(a + o + b) for (a, o, b, _) in xs)
+            if entry == "open_url":
+                u = "(url (proj %s %s) (sel %s))" % (
+                    "none" if cols is None else "(" + " ".join(cols) + ")",
+                    "none" if rng_ is None else "(sl %d %d %d)" % (rng_[0], rng_[2] + 1, rng_[1]), tok(cl))
+                ops = []
+            elif entry == "mixed":
+                u, ops = "(url (proj none none) (sel %s))" % tok(cl[:(len(cl) + 1) // 2]), P["_ops"]
+            else:
+                u, ops = "(url none)", P["_ops"]
+            urlcases.append(("sc-url %s (%s) %s %s" % (sid, " ".join(names), u, ops_sexp(ops)), hexs(q),
+                             dict(case, entry=entry, url=P["_url"])))
         if text != exp_text:
             ctx.oracle_fail("%s entry: rows differ from the reference filter/project/slice" % entry,
                             dict(case, entry=entry), text, exp_text,
@@ -261,7 +317,7 @@ def gen_request(rng, names, kinds, nrows):
 def explore(ctx, P, tier, search=False):
     tmpdir = tempfile.mkdtemp(prefix="c04-")
     try:
-        cases = []
+        cases, urlcases, parsecases = [], [], []
         rng = ctx.rng("requests")
         n = 350 if tier == "quick" else 6000
         if search:
@@ -274,8 +330,15 @@ def explore(ctx, P, tier, search=False):
             cols, rng_, clauses = gen_request(rng, names, kinds, len(rows))
             for backend in BACKENDS:
                 check_case(ctx, P, backend, names, kinds, rows, cols, rng_, clauses, cases, tmpdir, "random",
-                           ("raw", "open_url", "operators") + (("mixed",) if clauses else ()))
+                           ("raw", "open_url", "operators") + (("mixed",) if clauses else ()), urlcases)
+            parsecases.append(parse_case(render(SID, cols, rng_, clauses)))
+        colcol_block(ctx, P, cases, urlcases, tmpdir)
         ctx.correspond("BaseHandler .dods rows for ?cols[range]&clauses", cases, known_class=lambda m: m.get("raw_class"))
+        ctx.correspond("SequenceProxy.url of the proxy derived by the client operators / installed by open_url(url?ce)", urlcases)
+        for t in ("", "s", "s.i>1", "s&s.i>1&&s.t=\"a\"", "s[2].i,s.f", "s[1:3][0:2:8].i", "s.i[3:4]", "a.b.c,d[1]&x<2", "s]", "s[",
+                  "s[1:2:3:4]", "s[x]", "f(s.i,2)", "s.i,&"):
+            parsecases.append(parse_case(t))
+        ctx.correspond("parse_ce on the query text", parsecases)
         # clause texts and encode(): driver instances vs Python
         from pydap.lib import encode
         from pydap.parsers import parse_selection  # noqa: F401
@@ -290,6 +353,49 @@ def explore(ctx, P, tier, search=False):
         ctx.correspond("clause split and encode()", cases)
     finally:
         shutil.rmtree(tmpdir, ignore_errors=True)
+
+
+def parse_case(q):
+    """`parse_ce(q)` in the driver's canonical form"""
+    from pydap.parsers import parse_ce
+    try:
+        proj, sel = parse_ce(q)
+        if any(isinstance(p, str) for p in proj):
+            out = "none"            # a function call: outside the model
+        else:
+            sl = lambda x: "none" if x is None else str(x)
+            out = "(%s) (%s)" % (
+                " ".join("(%s)" % " ".join("(%s (%s))" % (hexs(n), " ".join("(%s %s %s)" % (sl(k.start), sl(k.stop), sl(k.step))
+                                                                           for k in slab)) for (n, slab) in item)
+                         for item in proj),
+                " ".join(hexs(t) for t in sel))
+    except Exception:
+        out = "none"
+    return ("sc-parse %s" % hexs(q), out, {"query": q})
+
+
+CC_NAMES, CC_KINDS = ["i", "j", "f", "t", "u"], ["i", "i", "f", "t", "t"]
+CC_ROWS = [(1, 2, 1.0, "a", "b"), (2, 2, 2.5, "b", "b"), (3, 1, 0.5, "cd", "ab"), (4, 4, 4.0, "ab", "cd"), (0, 7, -0.5, "b", "a")]
+
+
+def colcol_block(ctx, P, cases, urlcases, tmpdir):
+    """column-vs-column clauses between DIFFERENT columns, all six operators, every backend and entry, in every run:
+    on these rows `a OP b` never selects what `b OP b` (or `a OP a`) selects"""
+    for o in OPS:
+        ran = {}
+        for (c1, c2) in (("i", "j"), ("j", "i"), ("f", "i"), ("t", "u")):
+            want = seqtab.ref_filter(CC_NAMES, CC_ROWS, [(c1, o, ("name", c2))])
+            assert want != seqtab.ref_filter(CC_NAMES, CC_ROWS, [(c2, o, ("name", c2))])
+            assert want != seqtab.ref_filter(CC_NAMES, CC_ROWS, [(c1, o, ("name", c1))])
+            clause = ("%s.%s" % (SID, c1), o, "%s.%s" % (SID, c2), (c1, o, ("name", c2)))
+            for backend in BACKENDS:
+                for cols in (None, [c2, "t"]):
+                    check_case(ctx, P, backend, CC_NAMES, CC_KINDS, CC_ROWS, cols, None, [clause], cases, tmpdir, "colcol",
+                               ("raw", "open_url", "operators", "mixed"), urlcases)
+                    ran[backend] = ran.get(backend, 0) + 1
+        # one tag per operator naming the backends it really ran on (evidence keeps the 60 most frequent tags)
+        ctx.tags["colcol-different-columns:%s:on-%s:x4-entries" % (OPS[o][0], "+".join(b for b in BACKENDS if ran.get(b)))] += \
+            sum(ran.values())
 
 
 W_NAMES, W_KINDS = ["i", "f", "t"], ["i", "f", "t"]
@@ -326,9 +432,12 @@ def run(ctx):
                 "subsets/permutations or the whole sequence, record ranges [a:s:b], 0..3 clauses col OP const / "
                 "col OP col (same kind), each on 3 backends (numpy structured array, IterData, CSV file) x 3 entries "
                 "(raw .dods URL decoded independently, open_url(url?ce), seq[cond][cols][range] operators); "
+                "the operators entry varies step order (3) and conjunction vs one filter per clause; plus a fixed block of "
+                "column-vs-column clauses between different columns x 6 operators x 3 backends x 4 entries x {whole, columns}; "
                 "non-trivial = the constraint has a projection, a range or a clause; distinct by (backend, table, CE)")
     ctx.assumptions = ["the empty string travels as one NUL byte in DAP2 sequences (C01/C05 finding) and is read back as ''",
-                       "parse_ce's projection tokeniser and parse_hyperslab are tied by correspondence/C03, not by a C04 theorem"]
+                       "URL quoting/unquoting of the query is an identity on the generated characters (not modelled)",
+                       "the client's decoding of the answer (unpack_sequence) is exercised by the oracle only"]
     ctx.proof_phase()
     P = load()
     explore(ctx, P, ctx.tier)
